@@ -836,7 +836,10 @@ impl gen::CELVisitorCompat<'_> for Parser {
     fn visit_Int(&mut self, ctx: &IntContext<'_>) -> Self::Return {
         let string = ctx.get_text();
         let token = ctx.tok.as_ref().expect("Has to have int!");
-        let val = match if let Some(string) = string.strip_prefix("0x") {
+        let val = match if let Some(hex) = string.strip_prefix("-0x") {
+            // keep the sign while parsing, the most negative int has no positive counterpart
+            i64::from_str_radix(&format!("-{hex}"), 16)
+        } else if let Some(string) = string.strip_prefix("0x") {
             i64::from_str_radix(string, 16)
         } else {
             string.parse::<i64>()
